@@ -1927,6 +1927,21 @@ class RedunBackendDb(RedunBackend):
                 for task in subtree_tasks:
                     session.add(CallSubtreeTask(call_hash=call_hash, task_hash=task.hash))
                 session.commit()
+
+            elif not session.query(CallSubtreeTask).filter_by(call_hash=call_hash).first():
+                # The CallNode exists without its subtree tasks: its recording was interrupted,
+                # or it was imported from another repository (subtree tasks are not transferred).
+                # Complete it, so that a later cache hit on it reports what ran beneath it.
+                subtree_tasks = list(subtree_tasks)
+                for task in subtree_tasks:
+                    self.record_value(task)
+                # An interruption may also have left a task's Value row without its Task row.
+                self._record_special_redun_values(
+                    subtree_tasks, [task.hash for task in subtree_tasks]
+                )
+                for task in subtree_tasks:
+                    session.add(CallSubtreeTask(call_hash=call_hash, task_hash=task.hash))
+                session.commit()
         return call_hash
 
     @db_retry
